@@ -69,16 +69,17 @@ func (w levelFaultW) WriteLevel(l zerolog.Level, p []byte) (int, error) {
 }
 
 type c14case struct {
-	d, e   int
-	matrix []int // d*e outcomes, event-major
-	filter []int // per destination: -99 none, else FilteredLevelWriter level
-	plain  []bool
-	levels []zerolog.Level
-	single bool // no MultiLevelWriter: one destination directly
+	d, e     int
+	matrix   []int // d*e outcomes, event-major
+	filter   []int // per destination: -99 none, else FilteredLevelWriter level
+	plain    []bool
+	levels   []zerolog.Level
+	single   bool // no MultiLevelWriter: one destination directly
+	viaWrite bool // the multi writer is reached through its plain Write method (wrapped in a LevelWriterAdapter)
 }
 
 func (c *c14case) String() string {
-	return fmt.Sprintf("{dests=%d events=%d outcomes(event-major)=%v filters=%v plainWriter=%v levels=%v single=%v}", c.d, c.e, c.matrix, c.filter, c.plain, c.levels, c.single)
+	return fmt.Sprintf("{dests=%d events=%d outcomes(event-major)=%v filters=%v plainWriter=%v levels=%v single=%v viaWrite=%v}", c.d, c.e, c.matrix, c.filter, c.plain, c.levels, c.single, c.viaWrite)
 }
 
 func c14run(out *evid.Out, c *c14case) {
@@ -102,7 +103,10 @@ func c14run(out *evid.Out, c *c14case) {
 		ws[i] = w
 	}
 	// which events reach which destination
-	reach := func(di, ei int) bool { return c.filter[di] == -99 || int(c.levels[ei]) >= c.filter[di] }
+	reach := func(di, ei int) bool {
+		// through the plain Write path no level is known: FilteredLevelWriter.Write passes everything
+		return c.viaWrite || c.filter[di] == -99 || int(c.levels[ei]) >= c.filter[di]
+	}
 	// script per destination: the outcome of its k-th *received* call is that of the k-th event reaching it
 	for di := 0; di < c.d; di++ {
 		for ei := 0; ei < c.e; ei++ {
@@ -114,6 +118,8 @@ func c14run(out *evid.Out, c *c14case) {
 	var root io.Writer
 	if c.single {
 		root = ws[0]
+	} else if c.viaWrite {
+		root = zerolog.LevelWriterAdapter{Writer: zerolog.MultiLevelWriter(ws...)}
 	} else {
 		root = zerolog.MultiLevelWriter(ws...)
 	}
@@ -186,7 +192,7 @@ func c14run(out *evid.Out, c *c14case) {
 		var want []destCall
 		for ei := 0; ei < c.e; ei++ {
 			if reach(di, ei) {
-				want = append(want, destCall{c.levels[ei], wantBytes[ei], !c.plain[di]})
+				want = append(want, destCall{c.levels[ei], wantBytes[ei], !c.plain[di] && !c.viaWrite})
 			}
 		}
 		got := dests[di].calls
@@ -247,9 +253,17 @@ func c14(args []string) int {
 						}
 					}
 					c.single = false
+					c.viaWrite = false
 					c14run(out, c)
 					out.Case(rng.HashStr(c.String()), true)
 					out.Count("exhaustive_matrix_cases", 1)
+					if variant == 1 && m%3 == 0 {
+						c.viaWrite = true
+						c14run(out, c)
+						out.Case(rng.HashStr(c.String()), true)
+						out.Count("write_path_cases", 1)
+						c.viaWrite = false
+					}
 				}
 				if d == 1 {
 					c.single = true
@@ -264,7 +278,7 @@ func c14(args []string) int {
 		}
 	}
 	// random larger
-	nr := f.N(5000, 200000)
+	nr := f.N(30000, 1000000)
 	for i := 0; i < nr; i++ {
 		idx++
 		if !f.Mine(idx) {
@@ -289,6 +303,7 @@ func c14(args []string) int {
 				c.levels[j] = 42
 			}
 		}
+		c.viaWrite = r.Chance(1, 4)
 		c14run(out, c)
 		out.Case(rng.HashStr(c.String()), true)
 		out.Count("random_cases", 1)
